@@ -164,3 +164,38 @@ fn witness_c10_repetition_after_an_earlier_search_of_the_same_position() {
         panic!("repetition hidden by an entry of an earlier search");
     }
 }
+
+/// C13 through the engine: a `position` command with a rejected move changes nothing — whether its list is new or extends the
+/// list of the game the engine already holds; the next `go` answers for the position held before
+#[test]
+fn witness_c10_rejected_position_command_changes_nothing() {
+    use inkayaku_board::Bitboard;
+    let startpos = "rnbqkbnr/pppppppp/8/8/8/8/PPPPPPPP/RNBQKBNR w KQkq - 0 1";
+    let mut bad = 0;
+    for (accepted, rejected) in [
+        (&["e2e4"][..], &["e2e4", "e7e5", "e1e3"][..]),                       // extension ending in an unknown move
+        (&["e2e4", "f7f6"][..], &["e2e4", "f7f6", "d1h5", "a7a6"][..]),       // extension whose last move leaves the king in check
+        (&["d2d4"][..], &["e2e4", "f7f6", "d1h5", "a7a6"][..]),               // a different game
+        (&["g1f3", "g8f6"][..], &["g1f3", "g8f6", "f3g1", "f6g8", "zzzz"][..]),
+    ] {
+        let (tx, rx) = channel();
+        let mut engine = Engine::new(Arc::new(CommandUciTx::new(tx)), false);
+        engine.accept(UciCommand::UciNewGame);
+        let mv = |s: &str| UciMove::parse(s).ok();
+        engine.accept(UciCommand::PositionFrom { fen: Fen::from_str(startpos).unwrap(), moves: accepted.iter().map(|s| mv(s).unwrap()).collect() });
+        let rejected_moves: Vec<UciMove> = rejected.iter().filter_map(|s| mv(s).or_else(|| UciMove::parse("a1a1").ok())).collect();
+        engine.accept(UciCommand::PositionFrom { fen: Fen::from_str(startpos).unwrap(), moves: rejected_moves });
+        engine.accept(UciCommand::Go { go: Go { depth: Some(1), ..Go::default() } });
+        let mut best = None;
+        while let Ok(c) = rx.recv() { if let UciTxCommand::BestMove { best_move, .. } = c { best = best_move.map(|m| m.to_string()); break; } }
+        engine.accept(UciCommand::Quit);
+        let mut held = Bitboard::from_fen_string_unchecked(startpos);
+        for m in accepted { held.make_uci(m).unwrap(); }
+        let legal: Vec<String> = held.generate_legal_moves().iter().map(|m| m.to_uci_string()).collect();
+        if !best.as_ref().map(|b| legal.contains(b)).unwrap_or(false) {
+            println!("FAILING-INPUT: position startpos moves {:?} (accepted), then position startpos moves {:?} (rejected), go depth 1 -> bestmove {:?}, not a legal move of the position held before the rejected command", accepted, rejected, best);
+            bad += 1;
+        }
+    }
+    assert_eq!(bad, 0);
+}
